@@ -283,6 +283,12 @@ def signal_scenario(ctx, seed):
             # the work is done by a child of the shell ninja spawned (a wrapper script, a compiler driver), not by a process
             # the shell exec()ed in its own place: stopping the command means stopping its whole process group
             st["shell_suffix"] = " && true"
+        elif rng.random() < 0.3:
+            # a tool that ignores the terminal's signals and finishes what it is doing (started with 'exec': it takes the place of the
+            # shell ninja spawned and is the process ninja waits for): ninja cannot stop it, but it must not exit - and clean up - while it still runs
+            st["vtool_args"] = ["--ignore-signals", "--sleep-after", str(rng.choice((900, 1400))), "--announce", "run%d.flag" % i]
+            st["stubborn"] = True
+            st["shell_prefix"] = "exec "
         sc["stmts"].append(st)
     sc["stmts"].append(St("link", ["prog"], ins=[s["outs"][0] for s in sc["stmts"]]))
     t = e2e.Tree(sc)
